@@ -213,6 +213,17 @@ CLAIMED["C08"] = dict(
     technique=E2 + "; contract composition with C05/C14/C06",
 )
 
+CLAIMED["C18"] = dict(
+    category="exploration",
+    text=("Bounded stand-in only: the compiled callable is produced by Dynamo/AOT at run time and is not source text, so no proof obligation can be generated from /repo for it. "
+          "The check evaluates the C01 step contract at run time on the per-group step compiled with the eager and aot_eager backends (static and dynamic modes): parameters and "
+          "checkpointable state after every step must equal the uncompiled optimizer's bitwise, over configurations covering every branch of the group step, across the warm-up "
+          "switch, refresh steps and gradient-presence changes; the eager optimizer is compared with the float64 reference of the documented rule on the same configurations."),
+    design_ref="DESIGN.md §4/C18",
+    note="no obligations; Dynamo/AOTAutograd are external; inductor out of scope; 6 configurations quick / 24 thorough x backends x modes x 6 steps",
+    technique="bounded run-time evaluation of the step contract on the compiled callable (no deductive obligations are possible for a run-time artefact)",
+)
+
 NOT_YET = "no check committed yet for this property (work in progress; see DESIGN.md for the planned contract)"
 
 
